@@ -391,6 +391,21 @@ func RunCheck(o Options) int {
 	}
 	exhaustive := !cut && a.UnitsDone == sp.Units
 
+	// triage aid: every failure signature with its count and first example (not evidence)
+	{
+		var sb strings.Builder
+		var all []string
+		for sg := range a.Fails {
+			all = append(all, sg)
+		}
+		sort.Slice(all, func(i, j int) bool { return a.FailCounts[all[i]] > a.FailCounts[all[j]] })
+		for _, sg := range all {
+			fmt.Fprintf(&sb, "%6d  %s\n        e.g. %s\n        %s\n", a.FailCounts[sg], sg, trunc(a.Fails[sg][0].Case, 300), trunc(strings.ReplaceAll(a.Fails[sg][0].Detail, "\n", " ⏎ "), 300))
+		}
+		os.MkdirAll(filepath.Join(o.Root, ".work"), 0o755)
+		os.WriteFile(filepath.Join(o.Root, ".work", o.ID+"-failures.txt"), []byte(sb.String()), 0o644)
+	}
+
 	// classify failures
 	knownPath := filepath.Join(o.Root, "KNOWN_FINDINGS.txt")
 	if p := os.Getenv("VERIF_KNOWN"); p != "" {
